@@ -26,6 +26,8 @@ type layoutIn struct {
 	Paren   bool `json:"paren"`   // redundant parentheses around the selector / the whole metric expression
 	GrpPre  bool `json:"grpPre"`  // vector aggregation grouping before the operand: sum by (a) (x)
 	DurComp bool `json:"durComp"` // compound duration spelling: 90s -> 1m30s
+	// RangeFirst: the range (and offset) directly behind the selector, the pipeline after it: op({sel} [5m] offset 1m | logfmt | unwrap v)
+	RangeFirst bool `json:"rangeFirst"`
 }
 
 type parseIn struct {
@@ -145,6 +147,18 @@ func (e *mexprIn) textL(l layoutIn) string {
 		s = strings.Replace(s, fmt.Sprintf("[%ds]", e.Range), "["+durText(e.Range, l.DurComp)+"]", 1)
 		if e.Offset != 0 {
 			s = strings.Replace(s, fmt.Sprintf("offset %ds", e.Offset), "offset "+durText(e.Offset, l.DurComp), 1)
+		}
+		if l.RangeFirst {
+			// move " [range] offset o" from behind the pipeline to directly behind the selector
+			ro := " [" + durText(e.Range, l.DurComp) + "]"
+			if e.Offset != 0 {
+				ro += " offset " + durText(e.Offset, l.DurComp)
+			}
+			sel := renderLogQuery(e.Sel, nil)
+			if i := strings.LastIndex(s, ro); i >= 0 && strings.Contains(s, "("+sel) {
+				s = s[:i] + s[i+len(ro):]
+				s = strings.Replace(s, "("+sel, "("+sel+ro, 1)
+			}
 		}
 		return s
 	case "vecagg":
@@ -535,9 +549,9 @@ func wireExpr(e logql.Expr) F {
 	case *logql.LogExpr:
 		return F{"t": "log", "sel": wireMatchers(e.Sel.Matchers), "stages": wireStages(e.Pipeline)}
 	case *logql.RangeAggregationExpr:
-		uw := F{"on": false, "label": []int{}, "conv": ""}
+		uw := F{"on": false, "label": []int{}, "conv": "", "filters": []F{}}
 		if u := e.Range.Unwrap; u != nil {
-			uw = F{"on": true, "label": B(string(u.Label)), "conv": u.Op}
+			uw = F{"on": true, "label": B(string(u.Label)), "conv": u.Op, "filters": wireMatchers(u.Filters)}
 		}
 		param := []int{0, 1}
 		if e.Parameter != nil {
@@ -581,7 +595,7 @@ var parseMuts = []string{"drop_close_brace", "drop_close_paren", "drop_close_bra
 func (famParse) Gen(r *rand.Rand, n int, _ map[string]string) []any {
 	out := make([]any, 0, n)
 	for i := 0; i < n; i++ {
-		in := parseIn{Sel: []matcherIn{}, Stages: []stageIn{}, Layout: layoutIn{WS: r.Intn(5), Raw: r.Intn(3) == 0, Paren: r.Intn(4) == 0, GrpPre: r.Intn(2) == 0, DurComp: r.Intn(2) == 0}}
+		in := parseIn{Sel: []matcherIn{}, Stages: []stageIn{}, Layout: layoutIn{WS: r.Intn(5), Raw: r.Intn(3) == 0, Paren: r.Intn(4) == 0, GrpPre: r.Intn(2) == 0, DurComp: r.Intn(2) == 0, RangeFirst: r.Intn(3) == 0}}
 		switch r.Intn(5) {
 		case 0:
 			in.Kind = "log"
